@@ -504,11 +504,11 @@ theorem kf_map (hc : ChildSim S cd cn) (kk : Kind) (hsh : f.shape = .map kk)
       · simp
       · split
         · simp
-        · obtain ⟨h1, h2⟩ := implEntryLoop_sim hc kk f.elem n r n (Elem.zeroVar (.scalar kk)) f.elem.zeroVar
+        · obtain ⟨h1, h2⟩ := implEntryLoop_sim hc kk f.elem n (r.take n) n (Elem.zeroVar (.scalar kk)) f.elem.zeroVar
             (sE_zeroVar S _)
           rw [eE_zeroVar] at h1
           rw [h1]
-          cases hl : implEntryLoop cn S kk f.elem n r n (Elem.zeroVar (.scalar kk)) f.elem.zeroVar with
+          cases hl : implEntryLoop cn S kk f.elem n (r.take n) n (Elem.zeroVar (.scalar kk)) f.elem.zeroVar with
           | ok b =>
             obtain ⟨k', v'⟩ := b
             have hv' := h2 k' v' hl
